@@ -154,7 +154,10 @@ def violations(d, v, cs, icvn, excluded, qual):
             may.add('7')
     if cc:
         if must - {'6'} or may:
-            return {'6'}, set(ALLCODES)          # control character with another violation: only '6' is certain
+            # control character with another violation: '6' is certain, and so are the length codes (the statement lists
+            # length and control character as separate members of "exactly the set implied by the definition"; whether
+            # the later checks -- code list, data type, pattern, trailing blanks -- still speak is left open)
+            return {'6'} | (must & {'4', '5'}), set(ALLCODES)
         return {'6'}, set()
     return must, may
 
@@ -819,7 +822,7 @@ def work(shard):
         if '<open>' in oc:
             P.counters['open: expected set not determined by the statement (only no-exception and the result flag judged)'] += 1
         elif '+any' in oc:
-            P.counters['partly open: control character together with another violation (code 6 demanded, rest free)'] += 1
+            P.counters['partly open: control character together with another violation (codes 6 and 4/5 demanded, rest free)'] += 1
         elif '+may' in oc:
             P.counters['partly open: qualifier not listed / partial regex match (codes 8,9 / 7 free)'] += 1
         elif '<at least' in oc:
@@ -981,7 +984,7 @@ def run(R):
                 'segments': 'every 1251 element under every listed / an unlisted / no qualifier x 17 values; every composite position: all-good, too many components, qualifier pairs'}
     R.assumptions = ['data-type membership is decided by the recognisers of mc/c13.py (written from the C13 statement); the X12 control characters are BEL HT LF VT FF CR FS GS RS US SOH STX ETX EOT ENQ ACK DC1-DC4 NAK SYN ETB, of which BEL, HT, SOH are exercised',
                      'a not-used element / composite carrying a value must yield exactly one code when the value is otherwise well-formed and at least one otherwise; which code is not asserted',
-                     'a control character together with any other violation: only the presence of code 6 (and a false result) is asserted',
+                     'a control character together with another violation: code 6, the length codes 4/5 and a false result are asserted; codes of the later checks (code list, data type, pattern, trailing blanks) are left open',
                      'a date time period whose nearest preceding qualifier is empty or not in the code list of the qualifier node: codes 8/9 neither demanded nor forbidden',
                      'numeric lengths: one leading minus and one point are not counted; values with several signs/points are not in the catalogue',
                      'regex: a value matching only in part (re.search but not re.fullmatch) may or may not carry code 7',
